@@ -98,6 +98,22 @@ func genE1Spec(rt *rapid.T, f *e1Focus) adapt.Spec {
 	s.Cleanup = pick(rt, []int64{-5000000, 0, 0, 1000000000}, "cleanup")
 	if s.Ctor != "default" {
 		s.Presize = pick(rt, []int{0, 0, 0, -3, 1, 500}, "mincap")
+		// option lists: any order, and an option may occur more than once (the last occurrence counts)
+		s.OptPerm = uint8(irange(rt, 0, 3, "optionOrder"))
+		if irange(rt, 0, 2, "repeatedOptions") == 0 {
+			for i, n := 0, irange(rt, 1, 2, "nShadow"); i < n; i++ {
+				sh := adapt.ShadowOpt{Name: pick(rt, []string{"defexp", "defexp", "cleanup", "callback", "mincap"}, "shadowName")}
+				switch sh.Name {
+				case "defexp":
+					sh.D = pick(rt, []int64{30, 1000000000, 1, -1, 0, model.NoExpiration}, "shadowDefExp")
+				case "cleanup":
+					sh.D = pick(rt, []int64{0, -7000000}, "shadowCleanup")
+				case "mincap":
+					sh.D = int64(pick(rt, []int{1, 700, -2}, "shadowMinCap"))
+				}
+				s.Shadow = append(s.Shadow, sh)
+			}
+		}
 	}
 	return s
 }
